@@ -273,6 +273,26 @@ class Violation(dict):
                          replay=replay or {})
 
 
+class Timeout(Exception):
+    """raised by time_limit"""
+
+
+@contextlib.contextmanager
+def time_limit(seconds):
+    """SIGALRM-based limit for one call of library code (main thread of a worker process only)"""
+    import signal
+
+    def handler(signum, frame):
+        raise Timeout('exceeded {} s'.format(seconds))
+    old = signal.signal(signal.SIGALRM, handler)
+    signal.alarm(int(seconds))
+    try:
+        yield
+    finally:
+        signal.alarm(0)
+        signal.signal(signal.SIGALRM, old)
+
+
 class Inconclusive(Exception):
     """The harness cannot decide (exit 2) - never reported as a violation."""
 
@@ -342,12 +362,20 @@ def write_evidence(prop, tier, level, coverage, assumptions, wall_s, violations)
 # parallel runner
 # --------------------------------------------------------------------------------------------
 
+JOB_LIMIT_S = int(os.environ.get('NVMC_JOB_LIMIT', '1500'))
+
+
 def _call(job):
     fn, args = job
     import warnings
     warnings.simplefilter('ignore')
     try:
+        if getattr(fn, 'time_limited', False):
+            with time_limit(JOB_LIMIT_S):
+                return ('ok', fn(*args))
         return ('ok', fn(*args))
+    except Timeout:
+        return ('timeout', args)
     except Inconclusive as e:
         return ('inconclusive', str(e))
     except BaseException:
@@ -381,6 +409,8 @@ def pmap(fn, arglist, workers=None):
     for kind, val in res:
         if kind == 'ok':
             out.append(val)
+        elif kind == 'timeout':
+            out.append(dict(timeout=True, args=val))
         elif kind == 'inconclusive':
             raise Inconclusive(val)
         else:
